@@ -94,7 +94,8 @@ ArchVersionAsIs(c) ==
 (* ---- dpkg --compare-versions ------------------------------------------- *)
 \* order of a character in dpkg's scheme: '~' < end < letters < everything else
 Ascii == " !\"#$%&'()*+,-./0123456789:;<=>?@ABCDEFGHIJKLMNOPQRSTUVWXYZ[\\]^_`abcdefghijklmnopqrstuvwxyz{|}~"
-AsciiOf(c) == IndexOf(Ascii, c) + 31
+\* a character outside ASCII sorts above every ASCII one (as its UTF-8 bytes do); two such characters are not ordered here
+AsciiOf(c) == LET i == IndexOf(Ascii, c) IN IF i = 0 THEN 1000 ELSE i + 31
 DpkgOrder(c) ==
   IF c = "" THEN 0
   ELSE IF IsDigit(c) THEN 0
